@@ -35,7 +35,6 @@ import (
 	"encoding/json"
 	"fmt"
 	"net"
-	"os"
 	"strings"
 	"testing"
 	"time"
@@ -314,9 +313,6 @@ func c10PeerRun(t *testing.T, cfg c10PeerCfg) c10PeerOutcome {
 			}
 		}
 	}
-	if os.Getenv("C10_DEBUG") != "" {
-		c10PeerDump(events)
-	}
 	f, class := c10PeerCheck(spec, c2s, dialErr)
 	if f != nil {
 		f.Key = cfg.id() + ":" + f.Key
@@ -423,29 +419,5 @@ func c10PeerPart(t *testing.T) explore.Part {
 			c10PeerAttribute(t, cache, cfg, &o)
 			return &explore.Violation{Key: o.fail.Key, What: o.fail.What, Human: append([]string{cfg.id()}, o.human...)}
 		},
-	}
-}
-
-func c10PeerDump(events []sim.Event) {
-	for _, e := range events {
-		line := fmt.Sprintf("DBG t=%v %v len=%d from=%v", e.T, e.Dir, len(e.Data), e.From)
-		if len(e.Data) > 0 && e.Data[0]&0x80 != 0 {
-			lps, _, _ := wireobs.SplitDatagram(e.Data)
-			for _, p := range lps {
-				line += fmt.Sprintf(" [type=%d v=%#x dcid=%x scid=%x tok=%d", p.Type, p.Version, p.DCID, p.SCID, len(p.Token))
-				if p.Type == 0 && e.Dir == sim.C2S {
-					if ck, _, err := wireobs.InitialKeys(p.Version, p.DCID); err == nil {
-						for _, lg := range []int64{-1, 0, 1, 2, 3, 4, 5, 6} {
-							if p.Unprotect(ck, lg) == nil {
-								line += fmt.Sprintf(" pn=%d pnlen=%d", p.PN, p.PNLen)
-								break
-							}
-						}
-					}
-				}
-				line += "]"
-			}
-		}
-		fmt.Println(line)
 	}
 }
